@@ -200,7 +200,7 @@ def run_tdm(case, seed, st):
             ph.force_constants = st["fc"]
             ph.run_mesh(mesh, is_mesh_symmetry=False, is_gamma_center=True)
             f0 = np.sort(np.array(ph.get_mesh_dict()["frequencies"]).ravel())
-            fcut = f0[len(f0) // 3] + 0.37 * (f0[len(f0) // 3 + 1] - f0[len(f0) // 3])
+            fcut = max(f0[len(f0) // 3] + 0.37 * (f0[len(f0) // 3 + 1] - f0[len(f0) // 3]), 0.4 * f0[-1])
             ms = np.asarray(ph.supercell.masses)
             for i in range(len(ms)):
                 fcu[i, i] -= np.eye(3) * ms.min() * (fcut / U.VaspToTHz) ** 2
@@ -210,7 +210,7 @@ def run_tdm(case, seed, st):
     ph.run_mesh(mesh, with_eigenvectors=True, is_mesh_symmetry=False, is_gamma_center=True)
     md = ph.get_mesh_dict()
     f, ev = np.array(md["frequencies"]), np.array(md["eigenvectors"])
-    if want_unstable and not ((f < -1e-3).any() and (f > 1e-3).any()):
+    if want_unstable and not ((f < -1e-3 * np.abs(f).max()).any() and (f > 1e-3 * np.abs(f).max()).any()):
         raise RuntimeError("unstable model lost its purpose: frequencies %r" % np.sort(f.ravel())[[0, -1]])
     fmin, fmax = (1e-3, None) if not case["fwin"] else (0.3 * f.max(), 0.8 * f.max())
     if case.get("iter"):
